@@ -24,7 +24,7 @@ func (ph *ZnPlaygroundHandler) ServeHTTP(w http.ResponseWriter, r *http.Request)
 	if err != nil {
 		writeResponseForPlayground(w, nil, err)
 	} else {
-		rtnValue, err := ph.interpreter.LoadScript(source).Execute(varInput)
+		rtnValue, err := ph.interpreter.Fork().LoadScript(source).Execute(varInput)
 		writeResponseForPlayground(w, rtnValue, err)
 	}
 }
